@@ -605,6 +605,41 @@ for s in strings(%(N)d):
             if os.path.realpath(p) == os.path.realpath(cart) or p.endswith(('.pyc', '.py')): continue
             if not any(under(r, p) for r in roots_inc):
                 if len(bad) < 8: bad.append(['#include ' + name, kind, p])
+# ---- #include with a recognised PICO-8 carts folder under HOME: a cart inside it has the folder as root; a cart in a sibling whose name
+# merely starts with 'carts', or next to the folder, has its own directory as root and must not reach into the folder
+home = os.path.join(work, 'home')
+carts = os.path.join(home, '.lexaloffle', 'pico-8', 'carts')
+for f in ('secret.lua', 'game/lib.lua', 'game/sub/deep.lua'):
+    touch(os.path.join(carts, f), b'-- CANARY carts/' + f.encode() + b'\nx = 1\n')
+for d in ('carts-old', 'carts2/game', 'cartsbak'):
+    touch(os.path.join(home, '.lexaloffle', 'pico-8', d, 'own.lua'), b'-- own\nx = 1\n')
+touch(os.path.join(home, '.lexaloffle', 'pico-8', 'beside.lua'), b'-- CANARY beside\nx = 1\n')
+os.environ['HOME'] = home
+def include_case(cart_path, name, roots):
+    global n
+    os.makedirs(os.path.dirname(cart_path), exist_ok=True)
+    open(cart_path, 'wb').write(b'pico-8 cartridge // http://www.pico-8.com\nversion 8\n__lua__\n#include ' + name.encode() + b'\n__gfx__\n')
+    opened.clear(); n += 1
+    builtins.open, os.path.isfile = rec_open, rec_isfile
+    try:
+        try: pfile.from_file(cart_path)
+        except Exception as e: pass
+    finally:
+        builtins.open, os.path.isfile = real_open, real_isfile
+    for kind, p_ in opened:
+        if os.path.realpath(p_) == os.path.realpath(cart_path) or p_.endswith(('.pyc', '.py')): continue
+        if not any(under(r_, p_) for r_ in roots):
+            if len(bad) < 8: bad.append(['#include ' + name + ' from ' + os.path.relpath(cart_path, home), kind, p_])
+pico = os.path.join(home, '.lexaloffle', 'pico-8')
+for sib in ('carts-old', 'carts2/game', 'cartsbak'):
+    cdir = os.path.join(pico, sib)
+    for name in ('../carts/secret.lua', '../../carts/secret.lua', '../carts/game/lib.lua', '../beside.lua', 'own.lua', '../carts-old/own.lua', '../../beside.lua'):
+        include_case(os.path.join(cdir, 'cart.p8'), name, [cdir])
+for name in ('secret.lua', 'game/lib.lua', '../beside.lua', '../carts-old/own.lua', '../../pico-8/beside.lua', 'game/../secret.lua'):
+    include_case(os.path.join(carts, 'cart.p8'), name, [carts])                       # inside the folder: the folder is the root
+    include_case(os.path.join(carts, 'game', 'cart.p8'), name, [carts])
+include_case(os.path.join(pico, 'cart.p8'), 'carts/secret.lua', [pico])               # next to the folder: own directory
+os.environ['HOME'] = '/nonexistent'
 # ---- require
 main = os.path.join(work, 'proj', 'main.lua')
 class A: pass
